@@ -414,6 +414,9 @@ func (w *World) checkDecoded(h *StoreH, kind string, img []byte, end int64) {
 		return
 	}
 	if dec == nil {
+		if len(top.State.Colls) == 0 {
+			return // an empty store needs no root record
+		}
 		if w.judges(kind) {
 			w.fail("decoder-vs-model", kind, "disk %d: the model has a completed flush ending at %d but the independent decoder finds no root record in the file", h.Disk, top.End)
 		}
@@ -518,10 +521,15 @@ func (w *World) opFlush(h *StoreH, op Op) {
 	d := h.Disk
 	end, ok := w.lastWriteEnd(d, from)
 	if !ok {
-		if w.judges(kind) {
-			w.fail("flush-no-root", kind, "Flush on s%d returned nil without writing anything", h.ID)
+		// Flush wrote nothing.  That is fine when nothing changed since the
+		// last flush; whether the file really holds the current state is
+		// decided below (decoder) and at the next re-open, not assumed.
+		w.probe("flush-wrote-nothing")
+		if top, has := w.Files[d].Top(); has {
+			end = top.End
+		} else {
+			end = 0
 		}
-		return
 	}
 	w.Files[d].Flushes = append(w.Files[d].Flushes, MFlush{State: h.M.Clone(), End: end, LogSeq: len(w.Disks[d].Log)})
 	w.Files[d].mark(len(w.Disks[d].Log))
